@@ -1,5 +1,6 @@
 import ZI.Registry
-/-! Scratch (design phase): registry.py `Components` on top of the adapter-registry model (C16). -/
+/-! C16 model: registry.py `Components` on top of the adapter-registry model. `fixed = false` reproduces the pinned
+`unregisterUtility` (the counter cache addressed with the component passed in), `true` the repaired one (b1af53e). -/
 namespace ZI.Components
 open ZI.Registry
 abbrev Id := Nat
@@ -56,14 +57,17 @@ def cacheUnregister (s : Comp) (p : Id) (name : String) (c : C) : Comp × Bool :
   let s := { s with ucache := AList.set s.ucache p (cache, unh) }
   (if n > 0 then s else { s with w := unsubscribe FUEL s.w UT [] (some p) (some c.v) }, true)
 
-def unregisterUtility (s : Comp) (c : Option C) (p : Id) (name : String) : Comp × String × List Ev :=
+def unregisterUtilityV (fixed : Bool) (s : Comp) (c : Option C) (p : Id) (name : String) : Comp × String × List Ev :=
   match AList.get? s.utilRegs (p, name) with
   | none => (s, "False", [])
   | some old =>
     if (match c with | some c => !(c.eq old.1) | none => false) then (s, "False", []) else
-    let comp := c.getD old.1
+    let comp := if fixed then old.1 else c.getD old.1        -- repaired: always the registered object
     let (s, ok) := cacheUnregister s p name comp
     if ok then (s, "True", [.unregistered "Utility"]) else (s, "TypeError", [])
+
+def unregisterUtility (s : Comp) (c : Option C) (p : Id) (name : String) : Comp × String × List Ev :=
+  unregisterUtilityV true s c p name
 
 def registerUtility (s : Comp) (c : C) (p : Id) (name : String) (info : String) : Comp × String × List Ev :=
   match AList.get? s.utilRegs (p, name) with
